@@ -433,6 +433,43 @@ def rule_h_tof_index_passed(ctx, fns, extra=()):
     return n
 
 
+def rule_i_end_planes_setting_honoured(ctx, fns):
+    """`zero end planes of segment 0` changes the objective function: value, gradient and sensitivity leave those planes out (the helper
+    in distributable.cxx zeroes them in the measured viewgrams).  Every member of the objective function that reads MEASURED viewgrams
+    itself (get_proj_data().get_related_viewgrams) must do the same, or it differentiates another function: each such read is followed,
+    on every path to the function's exit, by a test of zero_seg0_end_planes whose branch fills the first and last axial position of
+    the viewgrams just read with 0."""
+    RULE = "C05.i-end-planes-setting-honoured"
+    n = 0
+    seen = set()
+    for f in fns:
+        if f.body is None or not f.cfg_raw or (f.file, f.body.line) in seen:
+            continue
+        reads = [c for c in f.calls() if (c.callee or "").endswith("ProjData::get_related_viewgrams") and c.c and "get_proj_data()" in key(c.c[0])]
+        if not reads:
+            continue
+        seen.add((f.file, f.body.line))
+        cfg = CFG(f)
+        for c in reads:
+            # the variable the viewgrams are stored in
+            vd = next((a for a in c.ancestors() if a.k == "VarDecl"), None)
+            v = "v%d" % vd.get("d") if vd is not None else None
+            guards = []
+            for g in f.walk():
+                if g.k != "IfStmt" or len(g.c) < 2 or "zero_seg0_end_planes" not in key(g.c[0]):
+                    continue
+                fills = [x for x in g.c[1].walk() if x.k == "CXXMemberCallExpr" and (x.callee or "").split("::")[-1] == "fill" and x.call_args() and key(x.call_args()[-1].strip()) in ("0", "0.0")]
+                ax = {"min" if "get_min_axial_pos_num" in key(x.c[0], False, None) or "min_ax" in key(x.c[0], True) else ("max" if "get_max_axial_pos_num" in key(x.c[0]) or "max_ax" in key(x.c[0], True) else "?") for x in fills}
+                mentions = v is None or any(v in key(x) for x in g.c[1].walk() if x.k == "DeclRefExpr")
+                if {"min", "max"} <= ax and mentions:
+                    guards += [y.i for y in g.c[0].walk()]
+            anchor = next((a for a in [vd] + list(c.ancestors()) if a is not None and a.i in cfg.pos), None)
+            ok = bool(guards) and anchor is not None and cfg.must_pass_before_exit([anchor], lambda x: x.i in guards) is None
+            ctx.ob(RULE, f.qn, "measured-viewgrams@%d" % c.line, ok, c.where(), "the end planes of segment 0 of the viewgrams read here are zeroed under zero_seg0_end_planes, as in the value and the gradient" if ok else "measured viewgrams are read here and used without regard to zero_seg0_end_planes: with that setting on, this quantity belongs to another objective function than the value and the gradient (end planes of segment 0 included)")
+            n += 1
+    return n
+
+
 def run(ctx):
     ctx.explanation = (
         "Decides (a) by finite-domain abstract interpretation of every request function of "
@@ -471,6 +508,8 @@ def run(ctx):
     ctx.require_count("C05.e-elementwise-sums", 5)
     rule_h_tof_index_passed(ctx, fns, extra=[f for f in units[3].functions if f.qn == "stir::get_viewgrams"])
     ctx.require_count("C05.h-tof-index-passed", 12)
+    rule_i_end_planes_setting_honoured(ctx, fns)
+    ctx.require_count("C05.i-end-planes-setting-honoured", 2)
     rule_g_prior_share_same_arguments(ctx, allf)
     ctx.require_count("C05.g-prior-share-same-arguments", 3)
     rule_f_one_segment_range(ctx, [f for f in units[0].functions if not f.is_dependent or True])
